@@ -1,33 +1,20 @@
 #![allow(unused)]
 use crate::common::*;
 use crate::protos::*;
-crate::proof!{ #[kani::unwind(5)] fn probe_q_a_i8_depth0() {
-    let mut b = any_static_input::<4>();
-    let mut r = PBin::reader(&mut b);
-    let res = r.skip_till_depth(TType::I8, 0);
-    assert!(res.is_err());
-    core::mem::forget(res); core::mem::forget(r); core::mem::forget(b);
+crate::proof!{ #[kani::unwind(3)] fn probe_q_a_drop_npe() {
+    let e = npe_stub(ProtocolExceptionKind::InvalidData, "");
+    drop(e);
 }}
-crate::proof!{ #[kani::unwind(5)] fn probe_q_b_struct_limit1_forget() {
+crate::proof!{ #[kani::unwind(3)] fn probe_q_b_drop_result() {
     let x: u8 = kani::any();
-    let mut b = static_input([3, 0, 1, x, 0, 9, 9]);
-    let mut r = PBin::reader(&mut b);
-    let res = r.skip_till_depth(TType::Struct, 1);
-    core::mem::forget(res); core::mem::forget(r); core::mem::forget(b);
+    let r = TType::try_from(x);
+    drop(r);
 }}
-crate::proof!{ #[kani::unwind(5)] fn probe_q_c_struct_limit1_iserr() {
-    let x: u8 = kani::any();
-    let mut b = static_input([3, 0, 1, x, 0, 9, 9]);
-    let mut r = PBin::reader(&mut b);
-    let res = r.skip_till_depth(TType::Struct, 1);
-    assert!(res.is_err());
-    core::mem::forget(res); core::mem::forget(r); core::mem::forget(b);
+crate::proof!{ #[kani::unwind(3)] fn probe_q_c_drop_faststr_empty() {
+    let e = FastStr::empty();
+    drop(e);
 }}
-crate::proof!{ #[kani::unwind(5)] fn probe_q_d_struct_limit2_ok() {
-    let x: u8 = kani::any();
-    let mut b = static_input([3, 0, 1, x, 0, 9, 9]);
-    let mut r = PBin::reader(&mut b);
-    let res = r.skip_till_depth(TType::Struct, 2);
-    assert!(res.is_ok());
-    core::mem::forget(res); core::mem::forget(r); core::mem::forget(b);
+crate::proof!{ #[kani::unwind(3)] fn probe_q_d_drop_pe() {
+    let e = ProtocolException::new(ProtocolExceptionKind::InvalidData, FastStr::empty());
+    drop(e);
 }}
